@@ -4,6 +4,8 @@ import math
 import numpy as np
 from hypothesis import strategies as st
 
+from vk import gen
+
 ID = "C16"
 LEVEL = "exploration"
 RULE = (
@@ -78,7 +80,7 @@ def build(case):
     groups = []
     rid = 0
     for c in case["chroms"]:
-        pos = int(rng.integers(0, 500))
+        pos = int(rng.integers(0, 500)) + gen.offset_for(case)
         cgroups = []
         for b in c["blocks"]:
             if b["t"] == "inter":
